@@ -65,27 +65,38 @@ def gen_scalar_or_list(ch):
     return ch.choice(SCALARS)
 
 
-def gen_patch(ch, d, tags, depth=0):
-    """A patch that is type-compatible with d."""
+def gen_patch(ch, d, tags, depth=0, fold=False):
+    """A patch that is type-compatible with d. fold: d is a Mapfile dict, whose keys are case-insensitive - the patch (a
+    plain dict) may then spell an existing key in any letter case."""
     p = {}
     keys = list(d.keys())
+
+    def sp(k):
+        # (one entry per key: a second spelling of a key already in the patch would speak of the same key twice)
+        for other in [x for x in p if isinstance(x, str) and isinstance(k, str) and x.lower() == k.lower()]:
+            del p[other]
+        if fold and isinstance(k, str) and not k.startswith("__") and ch.chance(1, 3):
+            tags.add("patch_key_other_case")
+            return ch.choice([k.upper(), k.capitalize()])
+        return k
+
     for _ in range(ch.int(1, 4)):
         m = ch.int(0, 9)
         if m <= 2 or not keys:
             k = ch.choice(KEYS + ["newkey", "n2"])
             if k in d and isinstance(d[k], (dict,)) or (k in d and _is_objlist(d[k])):
                 continue
-            p[k] = gen_scalar_or_list(ch)
+            p[sp(k) if k in d else (sp(k) and k)] = gen_scalar_or_list(ch)
             tags.add("new_key" if k not in d else "replace")
             continue
         k = ch.choice(keys)
         v = d[k]
         if isinstance(v, dict):
             if m == 3:
-                p[k] = {"__delete__": True}
+                p[sp(k)] = {"__delete__": True}
                 tags.add("delete_object")
             elif depth < 3:
-                p[k] = gen_patch(ch, v, tags, depth + 1)
+                p[sp(k)] = gen_patch(ch, v, tags, depth + 1, fold)
                 tags.add("nested_merge")
         elif _is_objlist(v):
             items = []
@@ -100,21 +111,21 @@ def gen_patch(ch, d, tags, depth=0):
                         items.append({"__delete__": True})
                         tags.add("delete_list_item")
                     elif depth < 3:
-                        items.append(gen_patch(ch, v[i], tags, depth + 1))
+                        items.append(gen_patch(ch, v[i], tags, depth + 1, fold))
                     else:
                         items.append(None)
                 else:
                     items.append({ch.choice(KEYS): ch.choice(SCALARS)})
                     tags.add("appended_item")
             if items:
-                p[k] = items
+                p[sp(k)] = items
                 tags.add("list_merge")
         else:
             if m == 4:
-                p[k] = "__delete__"
+                p[sp(k)] = "__delete__"
                 tags.add("delete_key")
             else:
-                p[k] = gen_scalar_or_list(ch)
+                p[sp(k)] = gen_scalar_or_list(ch)
                 tags.add("replace")
     # a new nested dict / new object list under an absent key
     if ch.chance(1, 6):
@@ -136,15 +147,18 @@ def _is_objlist(v):
 
 # ------------------------------------------------------------------ reference update
 
-def ref_update(d1, d2, overwrite=True):
-    """Written from the statement: returns the expected final content of d1 (a fresh structure)."""
+def ref_update(d1, d2, overwrite=True, fold=False):
+    """Written from the statement: returns the expected final content of d1 (a fresh structure).
+    fold: d1 is a Mapfile dict - d2 speaks of a key whatever letter case it spells it in."""
     out = OrderedDict((k, copy.deepcopy(v)) for k, v in d1.items())
     for k, v in d2.items():
+        if fold and isinstance(k, str):
+            k = k.lower()
         if isinstance(v, dict):
             if v.get("__delete__", False):
                 out.pop(k)
             else:
-                out[k] = ref_update(out.get(k, {}), v, overwrite)
+                out[k] = ref_update(out.get(k, {}), v, overwrite, fold and k in out)
         elif _is_objlist(v):
             orig = list(out.get(k, []))
             new = []
@@ -156,7 +170,7 @@ def ref_update(d1, d2, overwrite=True):
                 if n is None:
                     new.append(o if o is not None else OrderedDict())
                 else:
-                    new.append(ref_update(o if o is not None else {}, n, overwrite))
+                    new.append(ref_update(o if o is not None else {}, n, overwrite, fold and o is not None))
             out[k] = new
         else:
             if k in out and v == "__delete__":
@@ -178,7 +192,7 @@ def plain(x):
 def check_update(d1, patch, overwrite, case):
     import mappyfile
 
-    exp = ref_update(d1, patch, overwrite)
+    exp = ref_update(d1, patch, overwrite, fold=case.get("kind") == "mapfile")
     snap2 = refdict.snapshot(patch)
     try:
         res = mappyfile.update(d1, patch, overwrite=overwrite)
@@ -355,7 +369,7 @@ def search(acc: Acc, tier, shard, nshards):
         kind = ch.choice(["mapfile", "mapfile", "plain", "ordered"])
         d1 = gen_dict(ch, kind)
         tags = set()
-        patch = gen_patch(ch, d1, tags)
+        patch = gen_patch(ch, d1, tags, fold=(kind == "mapfile"))
         overwrite = ch.bool()
         case = {"kind": kind, "d1": plain(d1), "patch": patch, "overwrite": overwrite}
         nt = bool(tags & {"delete_key", "delete_object", "delete_list_item", "none_placeholder", "appended_item"})
